@@ -181,12 +181,33 @@ func c14RunScript(r *Run, idx int, kind, name string, rng *rand.Rand) {
 					return false
 				}
 			}
-			// feed the workers until each is stalled inside a secondary Set
-			for f := 0; f < 45 && int(a.sec.inSet.Load()) < a.workers; f++ {
-				st.VerifEvict(40000 + f)
-			}
-			for i := 0; i < 2000 && int(a.sec.inSet.Load()) < a.workers; i++ {
-				time.Sleep(100 * time.Microsecond)
+			// feed the workers until each is stalled inside a secondary Set. A stalled worker keeps its key's shard
+			// locked (exclusively, since the write and the removal happen under one hold): the forced evictions
+			// skip such shards, and the whole step is bounded - a white-box call that does walk into a held shard
+			// is released when the gate opens
+			fed := bounded(func() {
+				for f := 0; f < 45 && int(a.sec.inSet.Load()) < a.workers; f++ {
+					held := false
+					for _, sk := range a.sec.stalledKeys() {
+						if st.VerifShardOf(sk) == st.VerifShardOf(40000+f) {
+							held = true
+						}
+					}
+					if held {
+						continue
+					}
+					before := a.sec.inSet.Load()
+					st.VerifEvict(40000 + f)
+					for i := 0; i < 300 && a.sec.inSet.Load() == before; i++ {
+						time.Sleep(100 * time.Microsecond) // let a worker pick it up before choosing the next key
+					}
+				}
+			})
+			if !fed {
+				open()
+				bar.settle(a)
+				r.Inconclusive(1)
+				return
 			}
 			blocked := map[int]bool{}
 			for _, sk := range a.sec.stalledKeys() {
